@@ -112,7 +112,7 @@ class Gen:
         base_w = {
             "compile_str": 5.0, "compile_callable": 1.5, "compile_defs": 2.5, "compile_param": 1.2, "param_defs": 1.0,
             "to_logicfun": 0.8, "bind": 3.0, "oraclize": 2.0, "algo": 3.0, "secret_oracle": 0.4,
-            "export": 2.0, "decompile": 1.0, "truth_table": 1.5, "header": 0.3, "repr": 0.3, "again": 1.5, "forget": 0.8, "canary": 1.2, "variant": 0.8, "recompile": 0.6, "decode": 0.5, "custom": 0.35,
+            "export": 2.0, "decompile": 1.0, "truth_table": 1.5, "header": 0.3, "repr": 0.3, "again": 1.5, "forget": 0.8, "canary": 1.2, "variant": 0.8, "recompile": 0.6, "decode": 0.5, "custom": 0.35, "param_churn": 0.5,
         }
         # swarm: every run disables / boosts a random subset of op kinds
         self.w = {k: v * r.choice([0, 0.5, 1, 1, 2, 3]) for k, v in sorted(base_w.items())}
@@ -562,6 +562,42 @@ class Gen:
             self.note_name("probe", probe["src"])
         return True
 
+    def b_param_churn(self, s):
+        """bind an unbound function, drop it, create ANOTHER unbound function with the same parameter
+        names and types (same name, another body) and bind that to the same values: what a user does
+        when editing and re-running a cell, and what recycles the first object's address"""
+        import m_c08
+
+        r = self.r
+        for _ in range(6):
+            gsrc, params, args, ret, tmpl, gdefs = m_c08.gen_g(r, self.pick_name())
+            if not gdefs and ret == "bool":
+                break
+        else:
+            return False
+        try:
+            t = ast.parse(gsrc)
+            for n in ast.walk(t):
+                if isinstance(n, ast.Return) and n.value is not None:
+                    n.value = ast.UnaryOp(op=ast.Not(), operand=n.value)
+            gsrc2 = ast.unparse(ast.fix_missing_locations(t)) + "\n"
+        except Exception:
+            return False
+        name = progs.fname(gsrc)
+        vals = {n: gen_value(t_, r) for n, t_ in params}
+        order = [n for n, _ in params]
+        meta = {"params": [[n, f"Parameter[{t_}]"] for n, t_ in params], "argsig": [[n, t_] for n, t_ in args], "retsig": ret, "in_bits": 4, "nargs": len(args), "ret_bool": True, "compiled": True}
+        for src in (gsrc, gsrc2):
+            a = {"src": src, "via": "qlassf", "defs": [], "opt": "default", "uncompute": True, "to_compile": r.random() < 0.7}
+            self.note_name(name, src)
+            u = self.add("compile_str", a, [], s, "unbound", dict(meta, compiled=a["to_compile"]), name, digest(src, 8))
+            self.add("bind", {"target": u, "values": vals, "order": order}, [u], s, "qf", dict(meta), name)
+            if src is gsrc:
+                self.add("forget", {"target": u}, [u], s, "none")
+                self.pool = [x for x in self.pool if x["id"] != u]
+                self.forgotten.add(u)
+        return True
+
     def b_recompile(self, s):
         """qf.compile(...) again: a legitimate in-place change of the caller's own object"""
         c = self.cands(lambda e: e["rk"] == "qf" and e["meta"].get("argsig") is not None)
@@ -637,9 +673,11 @@ class Gen:
                 kind = "compile_str"
             n_before = len(self.ops)
             getattr(self, "b_" + kind)(s)
-            if self.arm == "interrupt" and len(self.ops) > n_before and len(self.planned_interrupts) < 2 and r.random() < 0.12:
+            if self.arm == "interrupt" and len(self.ops) > n_before and len(self.planned_interrupts) < 3:
                 last = self.ops[-1]
-                if last["kind"] in ("compile_str", "compile_callable", "bind", "oraclize", "algo", "truth_table", "decompile", "export", "recompile"):
+                # rarer op kinds are interrupted with a higher probability, so that every kind gets its share
+                p_int = {"compile_str": 0.06, "compile_callable": 0.15, "bind": 0.3, "oraclize": 0.2, "algo": 0.2, "truth_table": 0.3, "decompile": 0.45, "export": 0.25, "recompile": 0.3}.get(last["kind"], 0)
+                if r.random() < p_int:
                     # this op will be interrupted (Ctrl-C at a seeded library line): nothing may use its
                     # result; half of the time the user simply runs the same thing again right away
                     self.planned_interrupts.append({"op": last["id"], "kind": "interrupt", "frac": round(r.random(), 6)})
@@ -1160,6 +1198,7 @@ def run_history(cfg, ops, faults, prefix, tmpdir, est=None):
     last_reject_at = None
     byid = {op["id"]: op for op in ops}
     placed = []
+    debug_ids = [] if os.environ.get("VERIF_DEBUG_IDS") else None
 
     def probe(name):
         probes[name] = probes.get(name, 0) + 1
@@ -1192,6 +1231,8 @@ def run_history(cfg, ops, faults, prefix, tmpdir, est=None):
             interrupted.add(oid)
         if outcome == "ok":
             fps[oid] = fp
+            if debug_ids is not None:
+                debug_ids.append(id(res) % 1000003)
             if op["kind"] in KEEP:
                 objs[oid] = res
                 base[oid] = fp
@@ -1321,7 +1362,7 @@ def run_history(cfg, ops, faults, prefix, tmpdir, est=None):
                         violation = v
             if violation is not None:
                 break
-    out = {"records": records, "violation": violation, "states": states, "probes": probes, "late_ops": late_ops, "late_compared": late_cmp, "placed": placed}
+    out = {"records": records, "violation": violation, "states": states, "probes": probes, "late_ops": late_ops, "late_compared": late_cmp, "placed": placed, "ids": debug_ids}
     return out, fps
 
 
@@ -1475,6 +1516,8 @@ def run_segment(plan, ctx, detail=False, table=None):
     }
     if detail:
         out["records"] = [strip(h) for h in recs]
+    if os.environ.get("VERIF_DEBUG_IDS"):
+        out["ids"] = hres.get("ids")
     return out
 
 
